@@ -211,6 +211,62 @@ func (c *Check) updateFraming(ruleS, ruleG string) {
 			return fmt.Sprintf("a return other than *Notification (%d,%d) is reachable: %s %v", code, sub, rs.ec.Kind, rs.ec.Notif)
 		}
 	}
+	// a callback error of the session-reset class stops decoding: the sections
+	// after it are not handed to their callbacks
+	{
+		asYes := func(e *Expr) (ISet, bool) {
+			if (e.Op == "rcall" || e.Op == "call") && strings.HasPrefix(e.S, "errors.As") {
+				return isConst(1), true
+			}
+			return nil, false
+		}
+		callOf := func(field string) ssa.Instruction {
+			for _, x := range cbs {
+				if x.field == field {
+					return x.call.(ssa.Instruction)
+				}
+			}
+			return nil
+		}
+		errOf := func(in ssa.Instruction, nonNil bool) func(e *Expr) (ISet, bool) {
+			name := ""
+			if v, ok := in.(ssa.Value); ok {
+				name = v.Name() + "#"
+			}
+			return func(e *Expr) (ISet, bool) {
+				if e.Op != "nn" || e.Args[0].Op != "rcall" || len(e.Args[0].Args) == 0 {
+					return nil, false
+				}
+				if v := e.Args[0].Args[0]; v.Op == "val" && v.S == name {
+					return isConst(b2i(nonNil)), true
+				}
+				return nil, false
+			}
+		}
+		wr, pa, nl := callOf("wrFn"), callOf("decodePathAttrs"), callOf("nlriFn")
+		if wr != nil && pa != nil && nl != nil {
+			a1 := NewAnalysis(p, fn)
+			a1.AtomHook = hooks(asYes, errOf(wr, true))
+			a1.Run()
+			c.require(a1.Reachable(wr) && !a1.Reachable(pa) && !a1.Reachable(nl), ruleG, "UpdateDecoder.Decode", "session-reset error from the withdrawn routes stops decoding", p.InstrPos(wr),
+				"after a callback error containing a *Notification neither the attributes nor the NLRI are decoded")
+			a2 := NewAnalysis(p, fn)
+			a2.AtomHook = hooks(asYes, errOf(wr, false), errOf(pa, true))
+			a2.Run()
+			c.require(a2.Reachable(pa) && !a2.Reachable(nl), ruleG, "UpdateDecoder.Decode", "session-reset error from the attributes stops decoding", p.InstrPos(pa),
+				"after an attribute error containing a *Notification the NLRI is not decoded")
+			a3 := NewAnalysis(p, fn)
+			a3.AtomHook = hooks(func(e *Expr) (ISet, bool) {
+				if (e.Op == "rcall" || e.Op == "call") && strings.HasPrefix(e.S, "errors.As") {
+					return isConst(0), true
+				}
+				return nil, false
+			}, errOf(wr, true), errOf(pa, true))
+			a3.Run()
+			c.require(a3.Reachable(pa) && a3.Reachable(nl), ruleG, "UpdateDecoder.Decode", "other errors do not stop decoding", p.InstrPos(nl),
+				"treat-as-withdraw and attribute-discard errors are collected and decoding goes on")
+		}
+	}
 	c.runCases("C16.2 framing-errors", "UpdateDecoder.Decode", []asmCase{
 		{name: "body shorter than 4 => (3,0), no callback", init: func(a *Analysis, st *State) {
 			st.addFact(Fact{L: linConst(3).add(st.linOf(lenB), -1)})
@@ -219,6 +275,33 @@ func (c *Check) updateFraming(ruleS, ruleG string) {
 			st.addFact(Fact{L: st.linOf(lenB).add(linConst(4), -1)})
 			st.addFact(Fact{L: st.linOf(W).add(linConst(3), 1).add(st.linOf(lenB), -1)}) // W+4 > len  <=> W+3-len >= 0
 		}, forbid: only(3, 1)},
+		// a withdraw-only UPDATE: the two length fields and the withdrawn
+		// routes fill the body exactly, no attributes, no NLRI
+		{name: "body is exactly 4+W octets with an empty attribute block, callbacks accept => nil", init: func(a *Analysis, st *State) {
+			d := st.linOf(lenB).add(linConst(4), -1).add(st.linOf(W), -1)
+			st.addFact(Fact{L: d})
+			st.addFact(Fact{L: d.neg()})
+		}, hook: func(e *Expr) (ISet, bool) {
+			// Total Path Attribute Length (any big-endian 16-bit read other than W) is 0
+			if isCallNamed(e, "be16") && e.Key != W.Key {
+				if off, isC := e.Args[1].IsConst(); !(isC && off == 0 && e.Args[0].Key == b.Key) {
+					return isConst(0), true
+				}
+			}
+			// every callback and the attribute walk return nil
+			if e.Op == "nn" {
+				x := e.Args[0]
+				if x.Op == "rcall" && (strings.HasPrefix(x.S, "dyn:") || x.S == "UpdateDecoder.decodePathAttrs") {
+					return isConst(0), true
+				}
+			}
+			return nil, false
+		}, forbid: func(rs retSite) string {
+			if rs.ec.Kind != "nil" {
+				return "a structurally consistent withdraw-only UPDATE is refused: " + rs.ec.Kind + " " + fmt.Sprint(rs.ec.Notif)
+			}
+			return ""
+		}},
 	})
 }
 
@@ -376,15 +459,33 @@ func (c *Check) attrIteration(ruleS, ruleD string) {
 			g := st.impliedGE(st.linOf(mkLen(cur)).add(hi, -1))
 			c.require(g, ruleD, "UpdateDecoder.decodePathAttrs", name+": value within the block", p.InstrPos(paCall.(ssa.Instruction)), "len(remaining) >= header+L is established before the callback (an overrun never reaches it)")
 		}
-		// cursor advance on back edges
+		// cursor advance on back edges: after the callback (attribute not seen
+		// before), and when a repeated ordinary attribute is skipped
 		blk := cursor.Block()
 		adv := 0
+		dup := NewAnalysis(p, fn)
+		dup.NoInline = noInline
+		dup.AtomHook = hooks(extHook(ext), rangeHook(isSetRes, isConst(1)), rangeHook(func(e *Expr) bool {
+			if e.Op != "ld" || e.Args[0].Op != "ia" || e.Args[0].Args[0].Key != cur.Key {
+				return false
+			}
+			iv, isC := e.Args[0].Args[1].IsConst()
+			return isC && iv == 1
+		}, isRange(0, 13)))
+		dup.Run()
+		nDup := 0
 		for i, e := range cursor.Edges {
 			pred := blk.Preds[i]
 			if !blk.Dominates(pred) {
 				continue
 			}
-			for _, st := range a.EdgeOut[[2]int{pred.Index, blk.Index}] {
+			var edgeStates []*State
+			edgeStates = append(edgeStates, a.EdgeOut[[2]int{pred.Index, blk.Index}]...)
+			for _, st := range dup.EdgeOut[[2]int{pred.Index, blk.Index}] {
+				nDup++
+				edgeStates = append(edgeStates, st)
+			}
+			for _, st := range edgeStates {
 				adv++
 				ne := a.exprOf(st, nil, e)
 				ver := st.ver["E:*uint8"]
@@ -416,6 +517,7 @@ func (c *Check) attrIteration(ruleS, ruleD string) {
 		if adv == 0 {
 			c.fail(ruleS, "UpdateDecoder.decodePathAttrs", name+": cursor advance", p.InstrPos(cursor), "loop back edge unreachable")
 		}
+		c.require(nDup > 0, ruleS, "UpdateDecoder.decodePathAttrs", name+": repeated attribute skipped", p.InstrPos(cursor), "a repeated ordinary attribute is skipped and the iteration continues with the next one")
 	}
 	// completeness: an attribute whose header and value lie inside the block
 	// (an empty value ending exactly at the block boundary included) is never
@@ -544,16 +646,47 @@ func (c *Check) attrIteration(ruleS, ruleD string) {
 	}{
 		{"only one octet left", func(st *State) Fact { return Fact{L: linConst(1).add(st.linOf(lenCur), -1)} }},
 		{"two octets left", func(st *State) Fact { return Fact{L: linConst(2).add(st.linOf(lenCur), -1)} }},
+		{"two octets left, one-octet length", func(st *State) Fact { return Fact{L: linConst(2).add(st.linOf(lenCur), -1)} }},
+		{"three octets left, extended length", func(st *State) Fact { return Fact{L: linConst(3).add(st.linOf(lenCur), -1)} }},
+		{"header complete, value overruns the block", func(st *State) Fact { return Fact{L: linConst(3).add(st.linOf(lenCur), -1)} }},
 	} {
 		a := NewAnalysis(p, fn)
 		a.NoInline = noInline
 		// apply the fact at the loop head via a hook on len(cursor) comparisons:
 		// assume every remaining length is <= k
 		k := int64(1)
-		if w.name == "two octets left" {
+		var extH func(e *Expr) (ISet, bool)
+		switch w.name {
+		case "two octets left":
 			k = 2
+		case "two octets left, one-octet length":
+			k = 2
+			extH = extHook(false)
+		case "three octets left, extended length":
+			k = 3
+			extH = extHook(true)
+		case "header complete, value overruns the block":
+			k = 3
+			valueOverrun := rangeHook(func(e *Expr) bool {
+				if e.Op != "ld" || e.Args[0].Op != "ia" || e.Args[0].Args[0].Key != cur.Key {
+					return false
+				}
+				iv, isC := e.Args[0].Args[1].IsConst()
+				return isC && iv == 2
+			}, isRange(1, 255))
+			extH = hooks(extHook(false), valueOverrun, func(e *Expr) (ISet, bool) {
+				if e.Op == "len" && e.Args[0].Key == cur.Key {
+					return isConst(3), true
+				}
+				return nil, false
+			})
 		}
 		a.AtomHook = func(e *Expr) (ISet, bool) {
+			if extH != nil {
+				if v, ok := extH(e); ok {
+					return v, true
+				}
+			}
 			if e.Op == "len" && (e.Args[0].Key == cur.Key) {
 				return isRange(1, k), true
 			}
@@ -578,6 +711,9 @@ func (c *Check) attrIteration(ruleS, ruleD string) {
 		for _, r := range a.Returns {
 			if r.Results[errIdx].IsNil() {
 				probs = append(probs, "nil returned for a truncated attribute header")
+			}
+			if !r.State.must["call:totalAttrLenErr"] {
+				probs = append(probs, "a return is reachable on which no overrun error was raised")
 			}
 		}
 		if !okT {
